@@ -49,8 +49,22 @@ pub fn build_universe(rng: &mut Rng, n_replicas: usize, steps: usize, cfg: &GenC
             }
         }
         let r = rng.below(n_replicas as u64) as usize;
+        // debugging aid (VERIF_DUMP_EDIT_PANIC=<dir>): keep the bytes of the replica before each edit so that an
+        // editing call that panics can be replayed from a saved document
+        let dump_dir = std::env::var("VERIF_DUMP_EDIT_PANIC").ok();
         match rng.below(100) {
             0..=69 => {
+                if let Some(dir) = &dump_dir {
+                    let before = reps[r].clone().save();
+                    let actor = reps[r].get_actor().clone();
+                    let mut rng2 = rng.clone();
+                    let mut probe = reps[r].clone();
+                    if guard(|| gen::random_edit(&mut probe, &mut rng2, cfg)).is_err() {
+                        let n = log.len();
+                        std::fs::write(format!("{}/edit_panic_{}.bin", dir, n), &before).unwrap();
+                        std::fs::write(format!("{}/edit_panic_{}.txt", dir, n), format!("actor {}\nlog {:#?}", actor, log)).unwrap();
+                    }
+                }
                 if let Some(d) = gen::random_edit(&mut reps[r], rng, cfg) {
                     log.push(format!("r{} {}", r, d));
                 }
@@ -147,6 +161,9 @@ pub fn run(rng: &mut Rng, tier: &str, out: &str) -> Report {
                 continue;
             }
         };
+        if std::env::var("VERIF_DUMP_EDIT_PANIC").is_ok() {
+            continue;
+        }
         let n = u.changes.len();
         let cands = object_ids(&u.changes);
         let total_ops: usize = u.changes.iter().map(|c| c.len()).sum();
@@ -293,7 +310,11 @@ pub fn run(rng: &mut Rng, tier: &str, out: &str) -> Report {
         // pairwise equality of the final states (direct C01 search)
         for w in finals.windows(2) {
             if w[0].1 != w[1].1 || w[0].2 != w[1].2 {
-                rep.fail(&["C01"], "hist|divergence",
+                // a difference that involves a delivery order (apply_changes schedules, shuffled load_incremental) is
+                // also a failure of "the final state does not depend on arrival order" (C05)
+                let order_dependent = |p: &str| p.starts_with("apply_changes") || p.starts_with("load_incremental");
+                let props: &[&str] = if order_dependent(&w[0].0) || order_dependent(&w[1].0) { &["C01", "C05"] } else { &["C01"] };
+                rep.fail(props, "hist|divergence",
                     &format!("documents holding the same changes differ: {} vs {}", w[0].0, w[1].0),
                     json!({"universe": ui, "log": u.log}));
                 break;
